@@ -25,7 +25,13 @@ RULE = ('histories over 2-3 shared leaves: build ops (re-using any earlier resul
         'node that SEVERAL backward calls traverse: the same root twice, a root and then a composite root containing it (l1, then l1 + l2) '
         'in either order, an output of the op itself as root (non-uniform upstream gradient) before / between / after the final roots, '
         '2-7 calls, the leaves zeroed in between (Tensor.zero_ / Module.zero_grad / Optimizer.zero_grad) or left to accumulate; after every '
-        'call every leaf gradient is compared with the model and — by the oracle — with the accumulated chain-rule value (finite differences).')
+        'call every leaf gradient is compared with the model and — by the oracle — with the accumulated chain-rule value (finite differences). '
+        'LAYER-OBJECT histories: several forward passes through the SAME layer objects and the same leaves (Dropout / BatchNorm objects with dictated '
+        'draws / statistics, two training calls of one Dropout object every third time; one object of any layer / activation / pooling / loss class '
+        'called 2-4 times on same-shape / other-shape inputs in train / eval mode) are BUILT FIRST and differentiated LATER: backward from the result '
+        'of any single pass or from the total, at any moment after its root exists (between further forward passes or after all of them), in any '
+        'order, resets in between; after every event every gradient is compared with the model (each call = the function it computed) and — by the '
+        'oracle — with the sum of the per-call gradients of the same graph rebuilt through the functions.')
 EXHAUSTIVE = {'quick': False, 'thorough': False}
 ASSUMPTIONS = ['float64 programs']
 TRUSTED_BASE = ['harness/tprog.py, harness/gen_dag.py', 'harness/props/c03.py: shared_case / hist_oracle (histories through every op of the catalogue)', 'harness/props/c04.py: TreeModel (which leaves a reset of a module tree must reach: walk over attributes)']
@@ -347,6 +353,52 @@ def gen_tree_scripted(rng):
     return P, evs, nbw, G.stats
 
 
+def gen_layer_history(rng, k=0):
+    """graphs BUILT FIRST through the same layer OBJECTS and the same leaves — Dropout / BatchNorm objects with dictated draws / statistics
+    (two training calls of one Dropout object every third time), or one object of any layer / activation / pooling / loss class called 2-4
+    times (builders and executor of C03) —, differentiated LATER: a backward call from the result of any single forward pass (non-uniform
+    upstream gradient) or from the total comes at any moment after its root exists, i.e. between further forward passes through the same
+    objects or after all of them, in any order, with resets in between. The per-call reference of the oracle is the same graph rebuilt
+    through the FUNCTIONS with the mask / statistics of each call as constants."""
+    from props import c03
+    c = None
+    if k % 3 == 2:
+        c = c03.object_case(rng, rng.pick(c03.OBJ_OPS))
+    if c is None:
+        c = c03.stateful_case(rng, each='do' if k % 3 == 0 else True)
+    P0, events = c['P'], c['events']
+    # C04 programs create all leaves first: renumber
+    P, ren = gen_dag.Prog(), {}
+    for want in ('leaf', 'op'):
+        for nd in P0.nodes:
+            if nd['kind'] != want: continue
+            if want == 'leaf':
+                ren[nd['outs'][0]] = P.add_leaf(nd['shape'], nd['data'], nd['rg'], nd.get('dt', 'f64'))
+            else:
+                outs = P.add_op(nd['name'], [ren[i] for i in nd['ins']], nd['args'], [P0.tshape[o] for o in nd['outs']])
+                if nd.get('tag'): P.nodes[-1]['tag'] = nd['tag']
+                for a, b in zip(nd['outs'], outs): ren[a] = b
+    ops = [i for i, nd in enumerate(P.nodes) if nd['kind'] == 'op']
+    slots = [[] for _ in range(len(ops) + 1)]
+    late = rng.chance(.4)           # every graph is built before the first backward call
+    early = 0
+    for e in events:
+        t = ren[e[1]]
+        lo = ops.index(P.owner[t]) + 1 if (e[0] == 'bw' and P.nodes[P.owner[t]]['kind'] == 'op') else 0
+        at = len(ops) if (late or rng.chance(.4)) else rng.randint(lo, len(ops))
+        early += at < len(ops)
+        slots[at].append((e[0], t) + tuple(e[2:]))
+    evs = []
+    for i in range(len(ops) + 1):
+        if i: evs.append(('op', ops[i - 1]))
+        if rng.chance(.3): rng.shuffle(slots[i])
+        evs += slots[i]
+    nbw = sum(1 for e in evs if e[0] == 'bw')
+    cc = mk(P, evs, nbw, exec_='stateful')
+    cc['layers'] = dict(c.get('reuse') or {}, **{'backward calls between forward passes': early})
+    return cc
+
+
 def to_lines(P, evs, tree=False, pos=None):
     """interleave creation lines and events; after every event (but a tree operation) query all gradients. `pos` (a list) receives per
     event (index of its first line, index of the first gradient query after it or None)"""
@@ -365,7 +417,7 @@ def to_lines(P, evs, tree=False, pos=None):
             out += [f't zero {l}' for l in e[2]]
         elif e[0] == 'op':
             nd = P.nodes[e[1]]
-            out.append(' '.join(['t op', nd['name'], show_ints(nd['ins'])] + [str(a) for a in nd['args']]))
+            out.append(' '.join(['t op', nd['name'], show_ints(nd['ins'])] + [str(a) for a in nd['args']] + ([nd['tag']] if nd.get('tag') else [])))
             created += len(nd['outs'])
         elif e[0] == 'bw':
             out.append(f"t bw {e[1]} {show_ints(e[3] if len(e) > 3 else P.tshape[e[1]])} {show_floats(e[2])}")
@@ -385,7 +437,8 @@ def to_lines(P, evs, tree=False, pos=None):
 def to_model(line):
     """operations on the implementation's module objects that have no counterpart in the models (printing a module, building an optimizer,
     Optimizer.zero_grad — whose effect follows as `t zero` lines) must leave the engine alone: the model answers with its grad modes"""
-    return 't modes' if line.startswith('t tree ') else line
+    if line.startswith('t tree '): return 't modes'
+    return ' '.join(tok for tok in line.split(' ') if not tok.startswith('@')) if ' @' in line else line       # (which layer OBJECT a call goes through)
 
 
 def extract():
@@ -409,6 +462,9 @@ def cases(rng, tier):
     for k in range(70 if tier == 'quick' else 1500):
         P, evs, nbw, stats = gen_tree_history(rng, tier) if k % 5 < 3 else gen_tree_scripted(rng)
         out.append(mk(P, evs, nbw, tree=True)); out[-1]['stats'] = stats
+    # forward passes through the same layer objects first, backward calls later / in between
+    for k in range(45 if tier == 'quick' else 1500):
+        out.append(gen_layer_history(rng, k))
     for P, evs in corpus():
         out.append(mk(P, evs, 2))
     # every op of the catalogue as a node that several backward calls traverse (histories of C03: same root twice, l1 then l1 + l2,
@@ -450,9 +506,9 @@ def cases(rng, tier):
     return out
 
 
-def mk(P, evs, nbw, tree=False):
+def mk(P, evs, nbw, tree=False, exec_=None):
     lines = to_lines(P, evs, tree)
-    return {'P': P, 'evs': evs, 'nbw': nbw, 'lines': lines, 'tree': tree, 'desc': ' ; '.join(l for l in lines if not l.startswith('t grad'))[:900]}
+    return {'P': P, 'evs': evs, 'nbw': nbw, 'lines': lines, 'tree': tree, 'exec': exec_, 'desc': ' ; '.join(l for l in lines if not l.startswith('t grad'))[:900]}
 
 
 def corpus():
@@ -564,6 +620,9 @@ def run_tree(lines):
 
 
 def _run(c):
+    if c.get('exec'):
+        from props import c03
+        return tprog.run_program(c['lines'], c03.EXECS[c['exec']])
     return run_tree(c['lines']) if c.get('tree') else tprog.run_program(c['lines'])
 
 
@@ -595,6 +654,12 @@ def distribution(cases):
             d[k] = d.get(k, 0) + 1
         for e in c['evs']:
             d[e[0]] = d.get(e[0], 0) + 1
+        if c.get('layers'):
+            d['layer-object histories: graphs built through the same layer objects first, differentiated later'] = d.get('layer-object histories: graphs built through the same layer objects first, differentiated later', 0) + 1
+            for k, v in c['layers'].items():
+                if v is True or k == 'kind' or (k == 'backward calls between forward passes' and v):
+                    kk = 'layer-object histories/' + (f'kind={v}' if k == 'kind' else k)
+                    d[kk] = d.get(kk, 0) + 1
         if c.get('tree'):
             d['module-tree histories'] = d.get('module-tree histories', 0) + 1
             for k, v in c.get('stats', {}).items():
@@ -692,7 +757,7 @@ def oracle(c):
 
 
 def _strip(c, nev=None):
-    return {'nodes': c['P'].nodes, 'tshape': c['P'].tshape, 'evs': c['evs'][:nev] if nev else c['evs'], 'tree': bool(c.get('tree'))}
+    return {'nodes': c['P'].nodes, 'tshape': c['P'].tshape, 'evs': c['evs'][:nev] if nev else c['evs'], 'tree': bool(c.get('tree')), 'exec': c.get('exec')}
 
 
 def _unstrip(d):
@@ -707,13 +772,16 @@ def _unstrip(d):
             P.add_leaf(tuple(nd['shape']), nd['data'], nd['rg'])
         else:
             P.add_op(nd['name'], nd['ins'], nd['args'], [tuple(d['tshape'][o]) for o in nd['outs']])
+            if nd.get('tag'): P.nodes[-1]['tag'] = nd['tag']
     evs = [tuple(e) for e in d['evs']]
-    return mk(P, evs, sum(1 for e in evs if e[0] == 'bw'), tree=bool(d.get('tree')))
+    return mk(P, evs, sum(1 for e in evs if e[0] == 'bw'), tree=bool(d.get('tree')), exec_=d.get('exec'))
 
 
 def search(rng, tier):
     for k in range(120):
-        if k % 3 == 2:
+        if k % 4 == 3:
+            f = oracle(gen_layer_history(rng, k // 4))
+        elif k % 3 == 2:
             P, evs, nbw, _ = gen_tree_history(rng, 'quick') if k % 2 else gen_tree_scripted(rng)
             f = oracle(mk(P, evs, nbw, tree=True))
         else:
